@@ -12,11 +12,12 @@ Local Open Scope string_scope.
 Local Open Scope list_scope.
 
 (* the three restore flags on; lf = is the root of `x.f` looked up in the scope first *)
-Definition fxg (lf : bool) : rflags := mkFlags true true true lf.
+Definition fxg (lf rx : bool) : rflags := mkFlags true true true lf rx.
 
 Section LF.
 Variable lf : bool.
-Notation fx := (fxg lf).
+Variable rx : bool.
+Notation fx := (fxg lf rx).
 Notation expr_s := (expr_s lf).
 Notation assign_s := (assign_s lf).
 Notation stmt_s := (stmt_s lf).
@@ -756,6 +757,37 @@ Proof.
   - apply keeps_from_imports.
 Qed.
 
+Lemma keeps_try m : keeps_stack m -> keeps_stack (try_ m).
+Proof.
+  intros Hm st a st' H. unfold try_ in H. destruct (m st) as [[u s]| | |] eqn:E; try discriminate.
+  - inversion H; subst. eapply Hm; eauto.
+  - inversion H. reflexivity.
+Qed.
+
+Lemma keeps_quiet_round ast : keeps_stack (quiet_round ast).
+Proof.
+  apply keeps_for_each. intros m. apply keeps_for_each. intros s. destruct s; try apply keeps_ret.
+  - apply keeps_try. apply keeps_rgv.
+  - apply keeps_for_each. intros it. apply keeps_try. apply keeps_from_imports.
+Qed.
+
+Lemma keeps_import_rounds n ast : keeps_stack (import_rounds n ast).
+Proof.
+  induction n as [|n IH]; intros st a st' H; cbn [import_rounds] in H; [discriminate|].
+  destruct (quiet_round ast st) as [[u s]| | |] eqn:E; try discriminate.
+  apply keeps_quiet_round in E.
+  destruct (Nat.eqb (names_count s) (names_count st)).
+  - inversion H; subst. exact E.
+  - apply IH in H. congruence.
+Qed.
+
+Lemma keeps_import_pass b ast : keeps_stack (import_pass b ast).
+Proof.
+  unfold import_pass. apply keeps_bind.
+  - destruct b; [apply keeps_import_rounds|apply keeps_ret].
+  - intros _. apply keeps_for_each. intros m. apply keeps_rgv.
+Qed.
+
 Lemma keeps_insert m : keeps_stack (insert_namespace_and_add_definitions m).
 Proof.
   unfold insert_namespace_and_add_definitions. apply keeps_bind; [apply keeps_add_definitions|].
@@ -766,16 +798,17 @@ Lemma with_env_nil st : st_stack st = [] -> st = with_env st [].
 Proof. destruct st; cbn; intros ->; reflexivity. Qed.
 
 (* resolve_refines, for the resolver with all four flags on *)
-Theorem resolve_refines_g ast : wf_ast ast = true -> resolve fx ast = resolve_spec_g lf ast.
+Theorem resolve_refines_g ast : wf_ast ast = true -> resolve fx ast = resolve_spec_g lf rx ast.
 Proof.
   intros Hw. unfold resolve, resolve_spec_g, resolve_fuel, resolve_spec_fuel, resolve_m, resolve_spec_m.
   rewrite !bind_eq.
   destruct (for_each insert_namespace_and_add_definitions ast (init_state ast)) as [[[] s1]| | |] eqn:E1; try reflexivity.
   rewrite !bind_eq.
-  destruct (for_each (fun m => resolve_global_variables (m_file m) (m_stmts m)) ast s1) as [[[] s2]| | |] eqn:E2;
+  cbn [imports_fixpoint fxg].
+  destruct (import_pass rx ast s1) as [[[] s2]| | |] eqn:E2;
     try reflexivity.
   assert (Hst : st_stack s2 = []).
-  { rewrite (keeps_for_each _ ast (fun m => keeps_rgv (m_file m) (m_stmts m)) _ _ _ E2).
+  { rewrite (keeps_import_pass rx ast _ _ _ E2).
     rewrite (keeps_for_each _ ast keeps_insert _ _ _ E1). reflexivity. }
   assert (Hws : all_with wf_top (flat_map m_stmts ast) = true).
   { clear - Hw. induction ast as [|m ast IH]; [reflexivity|]. cbn in Hw. apply andb_true_iff in Hw as [Hm Ha].
@@ -790,28 +823,29 @@ Qed.
 End LF.
 
 (* resolve_refines, for the resolver with all four flags on *)
-Theorem resolve_refines ast : wf_ast ast = true -> resolve (fxg true) ast = resolve_spec ast.
-Proof. exact (resolve_refines_g true ast). Qed.
+Theorem resolve_refines rx ast : wf_ast ast = true -> resolve (fxg true rx) ast = resolve_spec rx ast.
+Proof. exact (resolve_refines_g true rx ast). Qed.
 
 (* with the three restore flags on and the namespace table consulted first for `x.f` (the code as it is
    after the scope fixes), the code is the specification WITH that quirk *)
-Theorem resolve_refines_nsfirst ast : wf_ast ast = true -> resolve (fxg false) ast = resolve_spec_nsfirst ast.
-Proof. exact (resolve_refines_g false ast). Qed.
+Theorem resolve_refines_nsfirst rx ast : wf_ast ast = true -> resolve (fxg false rx) ast = resolve_spec_nsfirst rx ast.
+Proof. exact (resolve_refines_g false rx ast). Qed.
 
 Definition restores (fl : rflags) : bool := if_truncates fl && case_truncates fl && else_truncates fl.
 
 (* for whatever flags the code has: once the three restore flags are on, the code is the specification
    with the same choice for `x.f` *)
 Theorem resolve_refines_restores fl :
-  restores fl = true -> forall ast, wf_ast ast = true -> resolve fl ast = resolve_spec_g (access_local_first fl) ast.
+  restores fl = true ->
+  forall ast, wf_ast ast = true -> resolve fl ast = resolve_spec_g (access_local_first fl) (imports_fixpoint fl) ast.
 Proof.
-  destruct fl as [[] [] [] lf]; cbn; intros H; try discriminate H. exact (resolve_refines_g lf).
+  destruct fl as [[] [] [] lf rx]; cbn; intros H; try discriminate H. exact (resolve_refines_g lf rx).
 Qed.
 
 (* for whatever flags the code has: once all four are on, the code is the specification *)
 Theorem resolve_refines_when_restored fl :
   if_truncates fl && case_truncates fl && else_truncates fl && access_local_first fl = true ->
-  forall ast, wf_ast ast = true -> resolve fl ast = resolve_spec ast.
+  forall ast, wf_ast ast = true -> resolve fl ast = resolve_spec (imports_fixpoint fl) ast.
 Proof.
-  destruct fl as [[] [] [] []]; cbn; intros H; try discriminate H. exact resolve_refines.
+  destruct fl as [[] [] [] [] rx]; cbn; intros H; try discriminate H. exact (resolve_refines rx).
 Qed.
